@@ -74,6 +74,18 @@ func contractsFor(specs *Specs, prop string) []*Contract {
 				rel = true
 			}
 		}
+		for _, nc := range c.NoCalls {
+			if hasProp(nc.Props, prop) {
+				rel = true
+			}
+		}
+		for _, ls := range c.Loops {
+			for _, inv := range ls.Invs {
+				if hasProp(inv.Props, prop) {
+					rel = true
+				}
+			}
+		}
 		if rel {
 			out = append(out, c)
 		}
